@@ -110,8 +110,9 @@ def parse_stream(gen, buf):
         else:
             if h[0:4] != AT5_OUTER:
                 return frames, buf[i:], f"bad outer prefix at {i}: {h[0:4].hex()}"
-            if h[4:6] != b"\x00\x00":
-                return frames, buf[i:], f"outer filler not zero at {i}"
+            # (h[4:6]: two filler bytes of the undocumented outer header - the console sends
+            # zeros; what other values would mean is not written down anywhere, so the
+            # reference does not judge them)
             l1 = (h[6] << 8) | h[7]
             l2 = (h[8] << 8) | h[9]
             if l1 != l2:
